@@ -57,6 +57,10 @@ class C08(Prop):
                         "return (A == B) || (B in C) || !A;", "return A[0];", "return B[0];", "return C[0];", "x = A[0]; return x;", "return [A[0], B[1], C[2]][0];",
                         "function f(a) { return a; } return f(A[0]);", "foreach v in A { return v; } return 1;", "foreach v in C { t(v); } return len(C);"]:
                 out.append(case(src, obj, "hostile-object"))
+        # an escape or a literal cut off by the end of the input
+        for head in [b'return "abc', b"return 'abc", b"x = /ab", b'x = "', b"// comment", b"x = 1 "]:
+            for tail in [b"\\", b"\\\r", b"\\\n", b"\\\r\n", b"\\\\", b"\r", b"\\t", b"\\\"", b"\\'", b"\\/", b"\xe2", b"\xe2\x88", b"\\\xe2"]:
+                out.append(case(None, "N", "cut-off", raw=head + tail))
         # maps that contain themselves, and maps nested around the machine's nesting limit
         for obj in ["c", "n3", "n4998", "n4999", "n5000", "n5001", "n5200"]:
             for src in ["return a;", "return type(self);", "x = self; n = 0; while (x) { x = x[\"self\"]; n = n + 1; } return n;",
